@@ -225,7 +225,8 @@ pub fn scientific_literal(input: ParseString) -> ParseResult<RealNumber> {
         (input, (exponent, Token::default()))
       }
       Err(err) => {return Err(err);}
-      _ => unreachable!(),
+      // An exponent with a kind suffix glued to it (1.0e5u8) is not a scientific literal.
+      Ok((rest, _)) => {return Err(nom::Err::Error(ParseError::new(rest, "Expects an integer or float exponent")));}
     }
   };
   let ex_sign = match neg {
